@@ -449,6 +449,24 @@ structure Sys.Idle (s : Sys) : Prop where
   useV2 : s.host.useV2 = s.dev.v2
   updV2 : s.host.updV2 = s.dev.v2
 
+/-! ### several connections of one `Crazyflie` object
+
+The `Param` object outlives a connection; its `Toc` does not.  A LIFE is a first connection and then any number of
+`close_link` / `open_link` pairs, each to a device of its own (other table, other values), each followed by a history. -/
+
+/-- `close_link()` then `open_link()` up to `connected`: the packets in flight on the old link are gone -/
+def Sys.reconnect (s : Sys) (toc : List Elem) (d : Dev) : Sys :=
+  { host := s.host.reconnect toc d.v2, dev := d, down := [] }
+
+/-- run a life: the observations of every connection separately, and the states in which the connections were closed -/
+def Sys.runLife (S2F : List Char → Except PyErr Nat) (v : Variant) :
+    Sys → List Ev → List (List Elem × Dev × List Ev) → Option (List (Sys × Sys × List Out))
+  | s, evs, [] => (Sys.run S2F v s evs).map fun r => [(s, r.1, r.2)]
+  | s, evs, (toc, d, evs') :: rest =>
+    match Sys.run S2F v s evs with
+    | none => none
+    | some r => (Sys.runLife S2F v (r.1.reconnect toc d) evs' rest).map fun l => (s, r.1, r.2) :: l
+
 /-! ### the retransmission path: `Crazyflie.send_packet` on a `needs_resending` link
 
 What a param request is armed with when it is transmitted, and what a fired retry timer may put on the wire.  The timer is
